@@ -5,16 +5,22 @@ package metrics
 // Contracts for the govc verifier (/verif). Comment-only.
 
 // ---- the ring window, abstracted by its most recent metric (container/ring is library code) ----
+//@ guards Store.mux: byName
+//@ guards Window.wMu: window
+//@ guards Checker.failedPeersMu: failedPeers
+
 //@ ghost var winLatest map[*Window]*api.Metric
 
 //@ func (mw *Window) Latest
-//@   opts trusted
+//@   property C18
+//@   opts trusted own
 //@   ensures winLatest[mw] == nil ==> err != nil && res == nil
 //@   ensures winLatest[mw] != nil ==> err == nil && res == winLatest[mw]
 //@   modifies nothing
 
 //@ func (mw *Window) All
-//@   opts trusted
+//@   property C18
+//@   opts trusted own
 //@   modifies nothing
 
 //@ func (mw *Window) Distribution
@@ -44,7 +50,8 @@ package metrics
 
 // ---- store lookups ----
 //@ func (mtrs *Store) PeerLatest
-//@   property C09
+//@   property C09 C18
+//@   opts own
 //@   ensures res != nil ==> haskey(mtrs.byName, name) && haskey(mtrs.byName[name], pid) && res == winLatest[mtrs.byName[name][pid]]
 //@   ensures haskey(mtrs.byName, name) && haskey(mtrs.byName[name], pid) ==> res == winLatest[mtrs.byName[name][pid]]
 //@   ensures !(haskey(mtrs.byName, name) && haskey(mtrs.byName[name], pid)) ==> res == nil
@@ -60,7 +67,8 @@ package metrics
 
 // "after which its stale metric is forgotten": exactly the (peer, name) window goes away
 //@ func (mtrs *Store) RemovePeerMetrics
-//@   property C09
+//@   property C09 C18
+//@   opts own
 //@   ensures !haskey(mtrs.byName[name], pid)
 //@   ensures forall n string, p peer.ID :: (n != name || p != pid) ==> (haskey(mtrs.byName[n], p) <==> haskey(old(mtrs.byName[n]), p)) && mtrs.byName[n][p] == old(mtrs.byName[n][p])
 //@   ensures forall n string :: haskey(mtrs.byName, n) <==> haskey(old(mtrs.byName), n)
@@ -84,7 +92,8 @@ package metrics
 
 // "reported once, not repeatedly, after which its stale metric is forgotten"
 //@ func (mc *Checker) alert
-//@   property C09
+//@   property C09 C18
+//@   opts own
 //@   ensures [others-untouched] forall p peer.ID, n string :: (p != pid || n != metricName) ==> counter(mc, p, n) == old(counter(mc, p, n))
 //@   ensures [once] old(counter(mc, pid, metricName)) < MaxAlertThreshold ==> counter(mc, pid, metricName) == old(counter(mc, pid, metricName)) + 1
 //@   ensures [then-forgotten] old(counter(mc, pid, metricName)) >= MaxAlertThreshold ==> err == nil && counter(mc, pid, metricName) == 0 && !haskey(mc.metrics.byName[metricName], pid)
@@ -100,7 +109,8 @@ package metrics
 
 // "at most one metric per peer - the most recently received - and only if it is valid, unexpired"
 //@ func (mtrs *Store) LatestValid
-//@   property C09
+//@   property C09 C18
+//@   opts own
 //@   requires storeInv(mtrs)
 //@   ensures [latest-of-some-peer] forall i int :: 0 <= i && i < len(res) ==> res[i] != nil && haskey(mtrs.byName, name) && haskey(mtrs.byName[name], res[i].Peer) && res[i] == winLatest[mtrs.byName[name][res[i].Peer]]
 //@   ensures [valid-unexpired] forall i int :: 0 <= i && i < len(res) ==> res[i].Valid && !expiredAt(res[i], old(now))
@@ -112,3 +122,14 @@ package metrics
 //@     invariant forall i int, j int :: 0 <= i && i < j && j < len(metrics) ==> metrics[i].Peer != metrics[j].Peer
 //@     invariant forall p peer.ID :: in(p, seen1) && winLatest[byPeer[p]] != nil && winLatest[byPeer[p]].Valid && !expiredAt(winLatest[byPeer[p]], now) ==> in(winLatest[byPeer[p]], elems(metrics))
 //@   modifies nothing
+
+//@ func (mw *Window) Add
+//@   opts trusted
+//@   modifies winLatest, heap(api.Metric), heap(Window)
+
+// "logging metrics while reading them": windows are only safe under the store lock
+//@ func (mtrs *Store) Add
+//@   property C18
+//@   opts own
+//@   at_call Window.Add assert [window-touched-under-the-store-lock] held(mtrs.mux)
+//@   modifies heap(Store), heap(api.Metric), heap(Window), winLatest
